@@ -86,7 +86,7 @@ class CoreHarness(Harness):
         self.arbiters = []
         if self.nports > 1:
             self.arbiters = core.crossbar.verif_arbiters
-            assert len(self.arbiters) == self.nranks * (1 << self.bankbits)
+            if len(self.arbiters) != self.nranks * (1 << self.bankbits): self.arbiters = []     # another arbitration structure: starvation lassos are then reported without a named cause
             keep += [a.grant for a in self.arbiters]
         self.c = c = fhdl.compile_sim(core, observe=obs, keep=keep)
         ii, oi = c.ii, c.oi
@@ -488,9 +488,10 @@ class CoreHarness(Harness):
                     if got != self.wbyte(exp):
                         self.report("data.read_mismatch", "port %d read byte %02x, expected %02x (last write accepted before this read)" % (k, got, self.wbyte(exp)), port=k)
                     cov["rd_compared"] = cov.get("rd_compared", 0) + 1
-            if not self.port_width and len(rq) + len(wq) > self.depth + 4 + (1 if self.buffered else 0):
-                # the crossbar confines a port to one bank at a time (lock) and a bank machine stores depth (+1 buffered) + 1 commands until
-                # their data phase: more accepted-and-unserved commands than that means one was accepted without being stored anywhere
+            if not self.port_width and len(rq) + len(wq) > self.depth + (1 if self.buffered else 0) + self.RL + self.WL + 12:
+                # the crossbar confines a port to one bank at a time (lock); a bank machine stores depth (+1 buffered) + 1 commands, reads stay
+                # outstanding for the read latency of PHY and crossbar, writes for the write latency; 10 more for register stages a maintainer
+                # may add anywhere on the way.  Beyond that a command was accepted without being stored anywhere (the count grows without bound)
                 raise Violation("port.accepted_exceeds_storage", "port %d has %d reads and %d writes accepted and not served: more than one bank machine can hold (command buffer depth %d): a command was accepted by the crossbar without entering a bank machine" % (k, len(rq), len(wq), self.depth), port=k)
             offered = pend is not None or ch[k] is not None
             # accepted commands not yet served at the start of this cycle
